@@ -299,6 +299,13 @@ def payload_chunked(u: U):
                 f"only HTTP protocol errors escape the chunked parser, got {type(out.exc).__name__}")
         if isinstance(out.exc, E.LineTooLong) and head:
             u.cover("C10.limit.line_too_long")
+        msg = getattr(out.exc, "message", None)
+        u.check("C10.error_message_encodable.payload",
+                not (isinstance(msg, stubs.SDecoded) and msg.errors == "surrogateescape"),
+                "the message of a protocol error raised by the chunked parser is never raw surrogateescape-decoded wire "
+                "text: the server renders it into the 400 response (UTF-8), where a lone surrogate raises inside the "
+                "connection task and the client gets an empty reply instead of the 400",
+                known=[("F10c", True)], witness={"request": "chunk-size line b'\\xff'"})
         return
     state, rest = out.value
     if head:
